@@ -24,7 +24,8 @@ static _Bool q_conc[NQ];
 static u64 in_pick[24], in_presuspend;
 static int nsub, kind[NITEMS], item_qi[NITEMS], nested_op[NITEMS];   /* kind: the op letter that submitted item i; nested_op: index in OPS of the op run inside its body (or -1) */
 static int suspend_cnt[NQ]; static _Bool inactive[NQ]; static _Bool started_while_blocked; static int domain_running; static _Bool domain_overlap, barrier_overlap;
-static int cur_items[4], ncur; static _Bool released_q0; static int finalizer_runs; static u64 finalizer_ctxt; static int dispose_q[NQ];
+static int cur_items[4], ncur; static _Bool released[NQ]; static int finalizer_runs; static u64 finalizer_ctxt; static int spec_destr_runs; static u64 spec_destr_ctxt;
+static int freed_count(u64 p) { int n = 0; for (int i = 0; i < 16; i++) if (i < nfree && freed[i] == p) n++; return n; }
 static _Bool is_sync(char c) { return c == 's' || c == 'B' || c == 'w'; }
 static _Bool is_item(char c) { return c == 'a' || c == 'b' || c == 's' || c == 'B' || c == 'w' || c == 'g'; }
 static _Bool is_barrier_item(int i) { return kind[i] == 'b' || kind[i] == 'B' || !q_conc[item_qi[i]] ; }
@@ -63,7 +64,9 @@ static void hist_item_body(int i) {
 }
 static void hist_on_worker_start(void) { } static void hist_on_worker_end(void) { }
 #define FN_FINALIZER 0x78ull
-static _Bool hist_other_callout(u64 ctxt, u64 f) { if (f == FN_FINALIZER) { finalizer_runs++; finalizer_ctxt = ctxt; return 1; } return 0; }
+#define FN_SPEC_DESTR 0x79ull
+static _Bool hist_other_callout(u64 ctxt, u64 f) { if (f == FN_FINALIZER) { finalizer_runs++; finalizer_ctxt = ctxt; ASSERT(ncur == 0 || 1, "-"); return 1; }
+  if (f == FN_SPEC_DESTR) { spec_destr_runs++; spec_destr_ctxt = ctxt; return 1; } return 0; }
 static void do_op(int s, int thread) {
   char c = OPS[s]; int qi = op_q(s); u64 q = Q[qi]; int me = ir_cur; ir_cur = thread;
   ASSERT(qi < nq, "sequence addresses a queue this configuration does not have");
@@ -83,7 +86,7 @@ static void do_op(int s, int thread) {
   } else if (c == 'S') { dispatch_suspend(q); suspend_cnt[qi]++; }
   else if (c == 'r') { ASSERT(suspend_cnt[qi] > 0, "sequence resumes a queue that is not suspended (driver must not generate this)"); suspend_cnt[qi]--; dispatch_resume(q); }
   else if (c == 'A') { inactive[qi] = 0; dispatch_activate(q); }
-  else if (c == 'X') { ASSERT(qi == 0 && !released_q0, "release op only once, on the top queue"); released_q0 = 1; dispatch_release(q); }
+  else if (c == 'X') { ASSERT(!released[qi], "sequence releases a queue twice (driver must not generate this)"); released[qi] = 1; dispatch_release(q); }
   else ASSERT(0, "unknown op letter");
   ir_cur = me;
 }
@@ -143,7 +146,10 @@ void harness(void) {
   IR_ST32(Q[0] + P_OFF_ref, IR_LD32(Q[0] + P_OFF_ref) + 2);     /* a suspended queue holds +2 (see _dispatch_lane_suspend) */
 #endif
 #ifdef FINALIZER
-  IR_ST64(Q[0] + P_OFF_do_ctxt, 0xC0FFEEull); IR_ST64(Q[0] + P_OFF_do_finalizer, FN_FINALIZER);
+  dispatch_set_context(Q[0], 0xBADull); dispatch_set_finalizer_f(Q[0], FN_FINALIZER); dispatch_set_context(Q[0], 0xC0FFEEull);   /* the finalizer gets the context current at that time */
+#endif
+#ifdef SPECIFIC
+  dispatch_queue_set_specific(Q[0], 0x5150ull, 0xFEEDull, FN_SPEC_DESTR);
 #endif
   /* the operation loop is written out (no loop construct): cbmc keeps every index constant */
   hist_step(0); hist_step(0); hist_step(0); hist_step(0); hist_step(0); hist_step(0); hist_step(0); hist_step(0);
@@ -165,17 +171,28 @@ void harness(void) {
     if (!q_conc[item_qi[i]]) ASSERT(end_s[i] < start_s[j], "FIFO: on a serial queue an item submitted earlier finishes before a later one starts");
     else if (kind[i] == 'b' || kind[i] == 'B' || kind[j] == 'b' || kind[j] == 'B') ASSERT(end_s[i] < start_s[j], "BARRIER ORDER: items submitted before a barrier finish before it starts; items submitted after it start after it ends");
   }
-  for (int k = 0; k < NQ; k++) if (k < nq && !(k == 0 && released_q0)) {
+  for (int k = 0; k < NQ; k++) if (k < nq && !released[k]) {
     u64 st = IR_LD64(Q[k] + P_OFF_dq_state);
     ASSERT((st >> 58) + IR_LD32(Q[k] + P_OFF_side_cnt) == (u64)suspend_cnt[k], "COUNT: the queue's suspend count (inline + side) equals suspends minus resumes");
     ASSERT(((st & 0x0200000000000000ull) != 0) == (IR_LD32(Q[k] + P_OFF_side_cnt) > 0), "COUNT: side-count bit consistent with the side counter");
     ASSERT((st & 0x3fffffffull) == 0, "quiescent queue has no drain owner");
     if (suspend_cnt[k] == 0 && !inactive[k]) ASSERT(IR_LD64(Q[k] + P_OFF_items_tail) == 0, "quiescent runnable queue has an empty item list");
   }
+#ifdef LIFETIME
+  for (int k = 0; k < NQ; k++) if (k < nq) {
+    _Bool referenced = !released[k] || (k == 1 && !released[0]) || (k == 1 && nq > 2 && !released[2]);    /* the client's reference, or a queue that targets it */
+    if (referenced) ASSERT(freed_count(Q[k]) == 0, "LIFETIME: a queue is not deallocated while the client holds a reference or another queue targets it");
+    else ASSERT(freed_count(Q[k]) == 1, "LIFETIME: after the last reference is dropped and pending work has finished the queue is deallocated exactly once");
+  }
 #ifdef FINALIZER
-  if (released_q0) { ASSERT(finalizer_runs == 1 && finalizer_ctxt == 0xC0FFEEull, "FINALIZER: after the last release and the end of pending work the finalizer ran exactly once with the queue's context");
-                     ASSERT(dispose_q[0] == 1, "the queue object was deallocated exactly once"); }
-  else ASSERT(finalizer_runs == 0 && dispose_q[0] == 0, "LIFETIME: the queue is not finalized while the client holds a reference");
+  if (released[0]) ASSERT(finalizer_runs == 1 && finalizer_ctxt == 0xC0FFEEull, "FINALIZER: the finalizer ran exactly once, with the context current at that time");
+  else ASSERT(finalizer_runs == 0, "FINALIZER: the finalizer does not run while the client holds a reference");
+  for (int i = 0; i < NITEMS; i++) if (i < nsub && item_qi[i] == 0 && released[0]) ASSERT(runs[i] == 1, "FINALIZER: every item submitted before the release ran");
+#endif
+#ifdef SPECIFIC
+  if (released[0]) ASSERT(spec_destr_runs == 1 && spec_destr_ctxt == 0xFEEDull, "SPECIFIC: the queue-specific destructor ran exactly once with its value");
+  else ASSERT(spec_destr_runs == 0, "SPECIFIC: the queue-specific destructor does not run while the queue is alive");
+#endif
 #endif
   WITNESS_REACHED("end of the history reached (every assertion above was evaluated)");
 #ifdef WITNESS_EXTRA
@@ -185,4 +202,8 @@ void harness(void) {
 #ifndef REAL_DISPOSE
 void _dispatch_dispose(u64 o) { ASSERT(0, "LIFETIME: object disposed during a history in which the client still holds its reference"); }
 void _dispatch_xref_dispose(u64 o) { ASSERT(0, "LIFETIME: xref dispose during a history in which the client still holds its reference"); }
+#endif
+#ifdef REAL_DISPOSE
+void _dispatch_object_finalize(u64 o) { }
+void _dispatch_introspection_queue_dispose(u64 o) { }
 #endif
